@@ -367,7 +367,9 @@ class OscTcpInterface(OscInterface):
                     self._is_connected = False
                     break
                 self._handle_request(data, self._socket.getpeername())
-            except OSError as e:
+            except (OSError, ValueError, struct.error) as e:
+                # ValueError and struct.error are for a wrong size prefix,
+                # the stream can't be followed from there.
                 if self._run_thread:  # Log for not intentional disconnects.
                     _logger.error(f'{str(self)}: {str(e)}')
                 self._is_connected = False
